@@ -296,7 +296,7 @@ theorem dropEnd_tor (s : Swarm) (x y a : Nat) (p p' : Peer) (hp : s.peers[a]? = 
 /-- every swarm action rewrites a peer's torrent by at most one torrent action -/
 theorem peer_tor_step (crc : Bytes → Nat) (s : Swarm) (act : Swarm.Action) (a : Nat) (p p' : Peer)
     (hp : s.peers[a]? = some p) (hp' : (Swarm.step crc s act).peers[a]? = some p') :
-    p'.tor = p.tor ∨ ∃ ta, ta ≠ AgentTorrent.Action.recreate ∧ p'.tor = AgentTorrent.step crc p.tor ta := by
+    p'.tor = p.tor ∨ ∃ ta, ta.destructive = false ∧ p'.tor = AgentTorrent.step crc p.tor ta := by
   cases act with
   | connect x y =>
     simp only [Swarm.step] at hp'
@@ -433,7 +433,7 @@ theorem peer_tor_step (crc : Bytes → Nat) (s : Swarm) (act : Swarm.Action) (a 
             split at hp'
             · split at hp'
               · cases hp'; rename_i h1 _; subst h1; rw [hx] at hp; cases hp
-                exact Or.inr ⟨.spawn (j : Int) payload, ⟨(fun h => by cases h), rfl⟩⟩
+                exact Or.inr ⟨.spawn (j : Int) payload, ⟨rfl, rfl⟩⟩
               · cases hp'
             · rw [hp] at hp'; cases hp'; exact Or.inl rfl
         · rw [hp] at hp'; cases hp'; exact Or.inl rfl
@@ -446,7 +446,7 @@ theorem peer_tor_step (crc : Bytes → Nat) (s : Swarm) (act : Swarm.Action) (a 
       rw [List.getElem?_set] at hp'
       split at hp'
       · split at hp'
-        · cases hp'; rename_i h1 _; subst h1; rw [hx] at hp; cases hp; exact Or.inr ⟨.step tid k, ⟨(fun h => by cases h), rfl⟩⟩
+        · cases hp'; rename_i h1 _; subst h1; rw [hx] at hp; cases hp; exact Or.inr ⟨.step tid k, ⟨rfl, rfl⟩⟩
         · cases hp'
       · rw [hp] at hp'; cases hp'; exact Or.inl rfl
   | resolve x tid =>
